@@ -44,6 +44,7 @@ type c02Case struct {
 	CloseTO bool   // Router.Close runs into its (short) CloseTimeout while the only invocation is still running; it then ends normally: the message is settled by that outcome
 	SamePS  bool   // one object is the handler's subscriber and its publisher, and the publish topic is the subscribe topic (the handler feeds itself)
 	CtxEnd  string // "" | handler | pre: the consumed message's own context is done by the time the router settles it (the handler ended it / it arrived that way); the settlement is by the outcome all the same
+	SameUUID string // "" | same | empty: all messages of the run carry one UUID (or none): they are different messages all the same -- told apart by their payload
 	LateMsg bool   // the handler is stopped (Handler.Stop) while the source keeps its channel open; a message sent then is handled like any other or given up unsettled, never settled without the chain
 }
 
@@ -157,6 +158,18 @@ func runC02(c *Ctx) error {
 			}
 		}
 	}
+	// (1i) several messages with one UUID (a redelivery that overtook its predecessor, a producer that sets none) in flight together
+	for _, su := range []string{"same", "empty"} {
+		for _, hp := range []bool{true, false} {
+			ok := c02Beh{Self: "none", End: "ok", Pub: "accept"}
+			bad := c02Beh{Self: "none", End: "err", ErrK: "plain", Pub: "accept"}
+			if hp {
+				ok.NOuts = 1
+			}
+			cases = append(cases, c02Case{HasPub: hp, Prefix: "none", SameUUID: su, Msgs: []c02Beh{ok, ok, bad}})
+			cases = append(cases, c02Case{HasPub: hp, Prefix: "pass", SameUUID: su, Msgs: []c02Beh{ok, bad, ok}})
+		}
+	}
 	// (1e) Close times out while the invocation runs; the invocation's outcome still decides the settlement
 	for _, hp := range []bool{true, false} {
 		for _, end := range []string{"ok", "err"} {
@@ -247,6 +260,12 @@ func c02Run(r *tr.Run, cs c02Case, rng *rand.Rand) (gateReached bool) {
 	pub := scripted.NewPub("pub")
 	prefix := fmt.Sprintf("r%d-", r.ID)
 	mid := func(uuid string) string { return strings.TrimPrefix(uuid, prefix) } // "m1"
+	idOf := func(msg *message.Message) string {                                 // the harness' name of a consumed message
+		if cs.SameUUID != "" {
+			return string(msg.Payload)
+		}
+		return mid(msg.UUID)
+	}
 	beh := map[string]c02Beh{}
 	consumed := map[string]*message.Message{}
 	var outMu sync.Mutex
@@ -263,14 +282,27 @@ func c02Run(r *tr.Run, cs c02Case, rng *rand.Rand) (gateReached bool) {
 	cancels := map[string]context.CancelFunc{}
 	endCtx := func(msg *message.Message) {
 		ctxMu.Lock()
-		c := cancels[msg.UUID]
+		c := cancels[prefix+idOf(msg)]
 		ctxMu.Unlock()
 		if c != nil {
 			c()
 		}
 	}
 	handler := func(msg *message.Message) ([]*message.Message, error) {
-		b := beh[mid(msg.UUID)]
+		b := beh[idOf(msg)]
+		if cs.SameUUID != "" {
+			// every invocation stays until all the messages are in the handler (bounded): they are in flight together
+			deadline := time.Now().Add(300 * time.Millisecond)
+			for time.Now().Before(deadline) {
+				outMu.Lock()
+				n := len(started)
+				outMu.Unlock()
+				if n >= len(cs.Msgs) {
+					break
+				}
+				time.Sleep(time.Millisecond)
+			}
+		}
 		if cs.CloseTO {
 			<-waitOr(holdCh, HangBound)
 		}
@@ -279,16 +311,16 @@ func c02Run(r *tr.Run, cs c02Case, rng *rand.Rand) (gateReached bool) {
 		}
 		switch b.Self {
 		case "ack":
-			r.Emit("hself", "m", mid(msg.UUID), "kind", "ack")
+			r.Emit("hself", "m", idOf(msg), "kind", "ack")
 			msg.Ack()
 			endCtx(msg) // like GoChannel, the subscriber ends the delivery's context as soon as it is settled
 		case "nack":
-			r.Emit("hself", "m", mid(msg.UUID), "kind", "nack")
+			r.Emit("hself", "m", idOf(msg), "kind", "nack")
 			msg.Nack()
 			endCtx(msg)
 		}
 		if b.Late != "" {
-			m := mid(msg.UUID)
+			m := idOf(msg)
 			ga, gn := sched.Park("message.ack.locked", msg.UUID), sched.Park("message.nack.locked", msg.UUID)
 			lateWg.Add(1)
 			go func() {
@@ -324,7 +356,7 @@ func c02Run(r *tr.Run, cs c02Case, rng *rand.Rand) (gateReached bool) {
 			outs = []*message.Message{}
 		}
 		for k := 1; k <= b.NOuts; k++ {
-			o := message.NewMessage(fmt.Sprintf("%s.o%d", msg.UUID, k), []byte(fmt.Sprintf("payload-%d", k)))
+			o := message.NewMessage(fmt.Sprintf("%s%s.o%d", prefix, idOf(msg), k), []byte(fmt.Sprintf("payload-%d", k)))
 			o.Metadata.Set("k", fmt.Sprint(k))
 			outs = append(outs, o)
 		}
@@ -352,7 +384,7 @@ func c02Run(r *tr.Run, cs c02Case, rng *rand.Rand) (gateReached bool) {
 	// outermost middleware: records what the router sees of the chain
 	recorder := func(h message.HandlerFunc) message.HandlerFunc {
 		return func(msg *message.Message) (outs []*message.Message, err error) {
-			m := mid(msg.UUID)
+			m := idOf(msg)
 			outMu.Lock()
 			started[m] = true
 			outMu.Unlock()
@@ -364,7 +396,7 @@ func c02Run(r *tr.Run, cs c02Case, rng *rand.Rand) (gateReached bool) {
 				}
 				ids := []string{}
 				for _, o := range outs {
-					ids = append(ids, strings.TrimPrefix(o.UUID, msg.UUID+"."))
+					ids = append(ids, strings.TrimPrefix(o.UUID, prefix+m+"."))
 				}
 				outMu.Lock()
 				returned[m] = outs
@@ -395,7 +427,7 @@ func c02Run(r *tr.Run, cs c02Case, rng *rand.Rand) (gateReached bool) {
 			return func(msg *message.Message) ([]*message.Message, error) {
 				outs, err := h(msg)
 				if err == nil {
-					outs = append(outs, message.NewMessage(fmt.Sprintf("%s.o%d", msg.UUID, len(outs)+1), []byte("appended")))
+					outs = append(outs, message.NewMessage(fmt.Sprintf("%s%s.o%d", prefix, idOf(msg), len(outs)+1), []byte("appended")))
 				}
 				return outs, err
 			}
@@ -477,7 +509,13 @@ func c02Run(r *tr.Run, cs c02Case, rng *rand.Rand) (gateReached bool) {
 		m := fmt.Sprintf("m%d", i+1)
 		ids = append(ids, m)
 		beh[m] = b
-		consumed[m] = message.NewMessage(prefix+m, []byte("in"))
+		consumed[m] = message.NewMessage(prefix+m, []byte(m))
+		switch cs.SameUUID {
+		case "same":
+			consumed[m].UUID = prefix + "same"
+		case "empty":
+			consumed[m].UUID = ""
+		}
 		mctx, mcancel := context.WithCancel(context.Background())
 		defer mcancel()
 		consumed[m].SetContext(mctx)
